@@ -17,11 +17,11 @@ open Real intervalIntegral Spec
 noncomputable def codeTerm (lorch : Bool) (qmin smin qmax r : ℝ) : ℝ :=
   let a := Real.pi / qmax
   let F1 := if lorch then
-      ((qmin * (r - a) * sin (qmin * (r - a)) + cos (qmin * (r - a)) - 1) / ((r - a) * (r - a))
-        - (qmin * (r + a) * sin (qmin * (r + a)) + cos (qmin * (r + a)) - 1) / ((r + a) * (r + a))) / (2 * a)
+      (qmin * qmin * (sincR (qmin * (r - a)) - 1 / 2 * (sincR (1 / 2 * (qmin * (r - a))) * sincR (1 / 2 * (qmin * (r - a)))))
+        - qmin * qmin * (sincR (qmin * (r + a)) - 1 / 2 * (sincR (1 / 2 * (qmin * (r + a))) * sincR (1 / 2 * (qmin * (r + a)))))) / (2 * a)
     else if r ≠ 0 then (2 * (qmin * r) * sin (qmin * r) - ((qmin * r) * (qmin * r) - 2) * cos (qmin * r) - 2) / (r * r * r) else 0
   let F2 := if lorch then
-      (sin (qmin * (r - a)) / (r - a) - sin (qmin * (r + a)) / (r + a)) / (2 * a)
+      qmin * (sincR (qmin * (r - a)) - sincR (qmin * (r + a))) / (2 * a)
     else if r ≠ 0 then (sin (qmin * r) - qmin * r * cos (qmin * r)) / (r * r) else 0
   (if qmin ≠ 0 then F1 * smin / qmin else 0) - F2
 
@@ -38,10 +38,11 @@ theorem R_low_x_term (xin yin xout yout : List ℝ) (hl : xout.length = yout.len
   congr 1
   apply List.map_congr_left
   intro r _
-  cases hlo : kw.lorch <;>
-    simp only [codeTerm, Bool.false_eq_true, if_false, if_true, Cmp.ne_real, decide_eq_true_eq, Nat.cast_ofNat,
-      Nat.cast_zero, Nat.cast_one, Transc.sin_real, Transc.cos_real, Transc.pi_real] <;>
-    (try (by_cases hq : Vec.min xin = 0 <;> by_cases hr : r = 0 <;> simp [hq, hr] <;> try ring))
+  cases hlo : kw.lorch
+  · simp only [codeTerm, Bool.false_eq_true, if_false, Cmp.ne_real, decide_eq_true_eq, Nat.cast_ofNat,
+      Nat.cast_zero, Nat.cast_one, Transc.sin_real, Transc.cos_real, Transc.pi_real]
+  · simp only [codeTerm, if_true, Cmp.ne_real, decide_eq_true_eq, Nat.cast_ofNat, Nat.cast_zero, Nat.cast_one,
+      Num.sinc_div_pi, Transc.pi_real, ne_eq]
 
 /-- P: the term is zero when Qmin = 0 -/
 theorem P_term_zero_Qmin0 (lorch : Bool) (smin qmax r : ℝ) : codeTerm lorch 0 smin qmax r = 0 := by
@@ -51,7 +52,7 @@ theorem P_term_zero_Qmin0 (lorch : Bool) (smin qmax r : ℝ) : codeTerm lorch 0 
 theorem P_term_zero_r0 (lorch : Bool) (qmin smin qmax : ℝ) : codeTerm lorch qmin smin qmax 0 = 0 := by
   cases lorch
   · simp [codeTerm]
-  · simp only [codeTerm, if_true, zero_sub, zero_add, mul_neg, sin_neg, cos_neg, neg_mul, neg_neg, neg_mul_neg]
+  · simp only [codeTerm, if_true, zero_sub, zero_add, mul_neg, sincR_neg]
     ring_nf
     simp
 
@@ -77,9 +78,10 @@ theorem mul_lorchW (a Q : ℝ) (ha : a ≠ 0) : Q * lorchW a Q = sin (a * Q) / a
     simp only [this, ne_eq, not_false_eq_true, if_true]
     field_simp
 
-/-- P (Lorch): the term is the integral of the same model damped by the Lorch window sin(aQ)/(aQ), a = π/Qmax -/
-theorem P_term_is_integral_lorch (qmin smin qmax r : ℝ) (hq : qmin ≠ 0) (hqmax : qmax ≠ 0)
-    (hm : r - Real.pi / qmax ≠ 0) (hp : r + Real.pi / qmax ≠ 0) :
+/-- P (Lorch): the term is the integral of the same model damped by the Lorch window sin(aQ)/(aQ), a = π/Qmax — for every r,
+    the points r = ±π/Qmax included (there the original quotient forms are 0/0; the code uses the sinc forms since the
+    `fix:` commit "low-Q Lorch correction ... sinc forms") -/
+theorem P_term_is_integral_lorch (qmin smin qmax r : ℝ) (hq : qmin ≠ 0) (hqmax : qmax ≠ 0) :
     codeTerm true qmin smin qmax r
       = ∫ Q in (0:ℝ)..qmin, Q * (smin * Q / qmin - 1) * lorchW (Real.pi / qmax) Q * sin (Q * r) := by
   have ha : Real.pi / qmax ≠ 0 := div_ne_zero Real.pi_ne_zero hqmax
@@ -92,12 +94,27 @@ theorem P_term_is_integral_lorch (qmin smin qmax r : ℝ) (hq : qmin ≠ 0) (hqm
         = (smin * Q / qmin - 1) * (Q * lorchW a Q) * sin (Q * r) := by ring
       _ = _ := by rw [this]; field_simp
   simp_rw [h1]
-  rw [intervalIntegral.integral_sub, intervalIntegral.integral_const_mul, int_F1_lorch qmin r a ha hm hp,
-    int_F2_lorch qmin r a ha hm hp]
+  rw [intervalIntegral.integral_sub, intervalIntegral.integral_const_mul, int_F1_lorch_sinc qmin r a ha,
+    int_F2_lorch_sinc qmin r a ha]
   · simp only [codeTerm, if_true, hq, ne_eq, not_false_eq_true, ← hadef]
     field_simp
   · exact (by fun_prop : Continuous fun Q : ℝ => smin / qmin * (Q * (sin (a * Q) / a) * sin (Q * r))).intervalIntegrable _ _
   · exact (by fun_prop : Continuous fun Q : ℝ => (sin (a * Q) / a) * sin (Q * r)).intervalIntegrable _ _
+
+/-- P: away from r = ±π/Qmax the term is the closed form of the original StoG (quotient forms) -/
+theorem P_term_lorch_quotient_form (qmin smin qmax r : ℝ)
+    (hm : r - Real.pi / qmax ≠ 0) (hp : r + Real.pi / qmax ≠ 0) :
+    codeTerm true qmin smin qmax r
+      = (let a := Real.pi / qmax
+         let F1 := ((qmin * (r - a) * sin (qmin * (r - a)) + cos (qmin * (r - a)) - 1) / ((r - a) * (r - a))
+                    - (qmin * (r + a) * sin (qmin * (r + a)) + cos (qmin * (r + a)) - 1) / ((r + a) * (r + a))) / (2 * a)
+         let F2 := (sin (qmin * (r - a)) / (r - a) - sin (qmin * (r + a)) / (r + a)) / (2 * a)
+         (if qmin ≠ 0 then F1 * smin / qmin else 0) - F2) := by
+  have e : qmin * (sincR (qmin * (r - Real.pi / qmax)) - sincR (qmin * (r + Real.pi / qmax)))
+      = sin (qmin * (r - Real.pi / qmax)) / (r - Real.pi / qmax) - sin (qmin * (r + Real.pi / qmax)) / (r + Real.pi / qmax) := by
+    rw [mul_sub, sinc_quot1 qmin _ hm, sinc_quot1 qmin _ hp]
+  simp only [codeTerm, if_true]
+  rw [sinc_quot2 qmin _ hm, sinc_quot2 qmin _ hp, e]
 
 /-- P: with the option the core transform is the uncorrected one plus `codeTerm` evaluated with
     Qmin = smallest in-window abscissa, S(Qmin) from the first in-window data point, Qmax = largest in-window abscissa:
@@ -126,5 +143,12 @@ theorem P_F_to_G_scales_once (q f r : List ℝ) (dy : Option (List ℝ)) :
 
 example : codeTerm false 1 2 10 1 = (2 * sin 1 - (1 - 2) * cos 1 - 2) * 2 / 1 - (sin 1 - cos 1) := by
   simp [codeTerm]
+
+/-- X: at the pole r = π/Qmax the term is a finite closed form (Qmin = 1, S(Qmin) = 2, Qmax = π, so a = 1, r = 1) -/
+example : codeTerm true 1 2 Real.pi 1
+    = ((1 - 1 / 2) - (sincR 2 - 1 / 2 * (sincR 1 * sincR 1))) / 2 * 2 / 1 - (1 - sincR 2) / 2 := by
+  have hpi : Real.pi ≠ 0 := Real.pi_ne_zero
+  simp [codeTerm]
+  norm_num
 
 end C15
